@@ -224,14 +224,25 @@ def _lookup_all_args(repo: Repo, f: FuncInfo, p) -> bool:
 
 def rule_domainname(repo: Repo) -> RuleResult:
     r = RuleResult("C05.domainname", "a problem that names a different domain is rejected", "(:domain x) must match the parsed domain")
-    f = repo.func("ProblemParser.parse_domain_name")
+    f = L.fn(repo, "ProblemParser.parse_domain_name")
     g = C.cfg_of(f.node)
+    p = L.prov(repo, f)
     r.site(f.qn)
 
+    def side(e) -> str:
+        try:
+            tr = p.trace(e)
+        except KeyError:
+            return "?"
+        if tr and all(x[0].startswith("param:") for x in tr):
+            return "param"
+        if tr and all(x[0] == "self" and x[-2:] == ("attr:domain", "attr:name") for x in tr):
+            return "domain.name"
+        return "?"
+
     def pred(t):
-        return isinstance(t, ast.Compare) and isinstance(t.ops[0], (ast.NotEq, ast.Eq)) and \
-            {"param", "domain.name"} <= {("param" if isinstance(s, ast.Name) and s.id in f.params else ("domain.name" if ast.unparse(s).endswith("domain.name") else "?"))
-                                         for s in (t.left, t.comparators[0])}
+        return isinstance(t, ast.Compare) and len(t.ops) == 1 and isinstance(t.ops[0], (ast.NotEq, ast.Eq)) and \
+            {"param", "domain.name"} <= {side(s) for s in (t.left, t.comparators[0])}
 
     G = L.Guards(f, lambda e: ("!same" if isinstance(e.ops[0], ast.NotEq) else "same") if pred(e) else None)
     if "same" not in G.atoms_seen:
